@@ -7,6 +7,7 @@ import (
 	"net"
 	"net/url"
 	"path"
+	"sort"
 	"strings"
 	"sync/atomic"
 	"testing"
@@ -16,6 +17,7 @@ import (
 	"github.com/thushan/olla/internal/config"
 	"github.com/thushan/olla/verifharness/backend"
 	"github.com/thushan/olla/verifharness/ev"
+	"github.com/thushan/olla/verifharness/profiles"
 	"github.com/thushan/olla/verifharness/rawclient"
 	"github.com/thushan/olla/verifharness/rig"
 	"github.com/thushan/olla/verifharness/stack"
@@ -60,7 +62,8 @@ func startDecoy() {
 
 type Case struct {
 	Engine   string   `json:"engine"`
-	Prefix   string   `json:"prefix"` // /olla/proxy/ | /olla/openai/
+	Prefix   string   `json:"prefix"` // /olla/proxy/ | /olla/<provider prefix>/
+	Type     string   `json:"type,omitempty"` // endpoint type (a profile owning the prefix); "" = openai-compatible
 	Base     string   `json:"base"`   // endpoint base path: "", "/", "/base", "/a/b/"
 	Preserve bool     `json:"preserve"`
 	Segs     []string `json:"segs"` // path segments after the prefix, joined with "/"
@@ -95,6 +98,12 @@ func genCase(t *rapid.T) Case {
 		Preserve: rapid.Bool().Draw(t, "preserve"),
 		Method:   rapid.SampledFrom([]string{"POST", "POST", "GET", "PUT"}).Draw(t, "method"),
 		Absolute: rapid.IntRange(0, 7).Draw(t, "absolute") == 0,
+	}
+	// a third of the cases: any routing prefix declared by a shipped profile, in front of an
+	// endpoint of the type that owns it
+	if len(provPrefixes) > 0 && rapid.IntRange(0, 2).Draw(t, "provider") == 0 {
+		pre := rapid.SampledFrom(provPrefixes).Draw(t, "provprefix")
+		c.Prefix, c.Type = "/olla/"+pre+"/", provOwners[pre][0]
 	}
 	n := rapid.IntRange(1, 6).Draw(t, "nseg")
 	for i := 0; i < n; i++ {
@@ -153,7 +162,7 @@ func runCase(c Case) []ev.Violation {
 	}
 	r.Mu.Lock()
 	defer r.Mu.Unlock()
-	if _, _, err := r.Setup([]rig.EP{{Backend: 0, Priority: 100, Preserve: c.Preserve, BasePath: c.Base}}); err != nil {
+	if _, _, err := r.Setup([]rig.EP{{Backend: 0, Type: c.Type, Priority: 100, Preserve: c.Preserve, BasePath: c.Base}}); err != nil {
 		rec.Inconclusive("setup: " + err.Error())
 		return nil
 	}
@@ -340,10 +349,24 @@ func runCfg(c CfgCase) []ev.Violation {
 	return vs
 }
 
+var (
+	provPrefixes []string
+	provOwners   map[string][]string
+)
+
 func TestC16(t *testing.T) {
+	if ps, err := profiles.Load(); err == nil {
+		provOwners = profiles.PrefixOwners(ps)
+		for p := range provOwners {
+			provPrefixes = append(provPrefixes, p)
+		}
+		sort.Strings(provPrefixes)
+	} else {
+		t.Fatalf("profiles: %v", err)
+	}
 	startDecoy()
 	defer rig.StopAll()
-	rec.SetRule("request targets written verbatim by a raw client: clean segments mixed with dot segments, %2e/%252e encodings, encoded slashes/backslashes, empty segments (//), ;params, authority tricks (@decoy, //decoy, absolute-form targets naming a decoy listener), queries carrying URLs; x endpoint base path {'', '/', '/base', '/a/b/', ...} x preserve_path x route prefix x engine; a decoy listener must never be contacted, the raw backend's request line is checked for containment under the base path and, for clean targets, for the exact expected path and verbatim query. Plus generated relative/absolute health_check_url and model_url resolved by LoadFromConfig. non-trivial = target with a dot-segment/encoding/slash anomaly with preserve_path on and a nested base path (config: relative path under a nested base); distinct by full case")
+	rec.SetRule("request targets written verbatim by a raw client: clean segments mixed with dot segments, %2e/%252e encodings, encoded slashes/backslashes, empty segments (//), ;params, authority tricks (@decoy, //decoy, absolute-form targets naming a decoy listener), queries carrying URLs; x endpoint base path {'', '/', '/base', '/a/b/', ...} x preserve_path x route prefix (/olla/proxy/ and every routing prefix declared by a shipped profile, in front of an endpoint of the owning type) x engine; a decoy listener must never be contacted, the raw backend's request line is checked for containment under the base path and, for clean targets, for the exact expected path and verbatim query. Plus generated relative/absolute health_check_url and model_url resolved by LoadFromConfig. non-trivial = target with a dot-segment/encoding/slash anomaly with preserve_path on and a nested base path (config: relative path under a nested base); distinct by full case")
 	rec.Assume("unclean targets may legitimately be answered by the mux's redirect or an error without any backend contact; the Host header sent upstream is the client's (documented) and is not asserted")
 	if ev.Replay(t, rec, "target", runCase) || ev.Replay(t, rec, "config", runCfg) {
 		return
